@@ -46,16 +46,6 @@ def _run(ctx):
     r = res["per_property"][pid]
     notes = r.get("notes", {})
     ctx.extra["behaviours_exported"] = n + na
-    # model fidelity: the Rust mirror of the decoder must agree with TLC on every exported line, and the real decoder
-    # with the model wherever the model's bytes are the real encoder's bytes; anything else is an error of the machinery
-    if notes.get("fidelity_error"):
-        raise lib.ToolError("model fidelity: %s" % notes["fidelity_error"])
-    if notes.get("mirror_mismatches"):
-        raise lib.ToolError("model fidelity: the harness' mirror decoder disagrees with Codec.tla on %d cases: %s"
-                            % (notes["mirror_mismatches"], r.get("divergences", [])[:2]))
-    if notes.get("model_mismatches"):
-        raise lib.ToolError("model fidelity: the real codec and Codec.tla disagree on %d cases (same bytes): %s"
-                            % (notes["model_mismatches"], r.get("divergences", [])[:2]))
     ctx.assumptions += [
         "value classes are represented by one small concrete value each in TLC (exactly the bytes the real encoder "
         "writes, checked) and additionally by large representatives in the replay (70 kB URIs, 256 kB contents, 1000 map entries)",
@@ -78,7 +68,20 @@ def _run(ctx):
                 "validation runs and Store::status over a cache with damaged stored-point files / status.bin; oracle: no "
                 "panic, abort, hang (10 s; 5 s for archive operations in quick), no single allocation > 64 MiB + 16 x input; "
                 "non-trivial = case where the decoder did not return a value, distinct by (record, classes, corruption)")
-    return lib.finish(ctx, r, rule, exhaustive=True)
+    rc = lib.finish(ctx, r, rule, exhaustive=True)
+    if rc != 0:
+        return rc       # a violation of the property's own oracle takes precedence over fidelity complaints
+    # model fidelity: the Rust mirror of the decoder must agree with TLC on every exported line, and the real decoder
+    # with the model wherever the model's bytes are the real encoder's bytes; anything else is an error of the machinery
+    if notes.get("fidelity_error"):
+        raise lib.ToolError("model fidelity: %s" % notes["fidelity_error"])
+    if notes.get("mirror_mismatches"):
+        raise lib.ToolError("model fidelity: the harness' mirror decoder disagrees with Codec.tla on %d cases: %s"
+                            % (notes["mirror_mismatches"], r.get("divergences", [])[:2]))
+    if notes.get("model_mismatches"):
+        raise lib.ToolError("model fidelity: the real codec and Codec.tla disagree on %d cases (same bytes): %s"
+                            % (notes["model_mismatches"], r.get("divergences", [])[:2]))
+    return rc
 
 
 _NOTE = ("The TLA+ part is a byte-level format model: TLC checks round trip and bounded allocation of the *intended* decoder "
